@@ -270,6 +270,45 @@ fn d_seal(o: &Ops) -> Result<Vec<u8>, String> {
     cb::crypto_box_seal(&mut c, &o.msg, &o.rpk).map_err(es)?;
     Ok(c)
 }
+
+// ---------------------------------------------------------------------------- the same calls with an output buffer that is longer than needed
+// (a reused or over-allocated buffer; libsodium's functions take the message length and never look past it).  What must hold: the call
+// either refuses, or the first message+overhead bytes are exactly the box - whatever the buffer held before and however long it is.
+fn roomy_extra(o: &Ops) -> usize { 1 + (o.msg.len() * 7 + o.nonce[0] as usize) % 40 }
+fn d_sb_easy_roomy(o: &Ops) -> Result<Vec<u8>, String> {
+    let n = o.msg.len() + MAC;
+    let mut c = vec![0xC9u8; n + roomy_extra(o)];
+    match csb::crypto_secretbox_easy(&mut c, &o.msg, &o.nonce, &o.key) { Ok(()) => { c.truncate(n); Ok(c) } Err(_) => d_sb_easy(o) }
+}
+fn d_sb_detached_roomy(o: &Ops) -> Result<Vec<u8>, String> {
+    let mut c = vec![0xC9u8; o.msg.len() + roomy_extra(o)];
+    let mut mac = [0x7Bu8; 16];
+    csb::crypto_secretbox_detached(&mut c, &mut mac, &o.msg, &o.nonce, &o.key);
+    Ok([&mac[..], &c[..o.msg.len()]].concat())
+}
+fn d_box_easy_roomy(o: &Ops) -> Result<Vec<u8>, String> {
+    let n = o.msg.len() + MAC;
+    let mut c = vec![0x5Eu8; n + roomy_extra(o)];
+    match cb::crypto_box_easy(&mut c, &o.msg, &o.nonce, &o.rpk, &o.ssk) { Ok(()) => { c.truncate(n); Ok(c) } Err(_) => d_box_easy(o) }
+}
+fn d_box_detached_roomy(o: &Ops) -> Result<Vec<u8>, String> {
+    let mut c = vec![0x5Eu8; o.msg.len() + roomy_extra(o)];
+    let mut mac = [0x7Bu8; 16];
+    cb::crypto_box_detached(&mut c, &mut mac, &o.msg, &o.nonce, &o.rpk, &o.ssk);
+    Ok([&mac[..], &c[..o.msg.len()]].concat())
+}
+fn d_box_detached_afternm_roomy(o: &Ops) -> Result<Vec<u8>, String> {
+    let k = cb::crypto_box_beforenm(&o.rpk, &o.ssk);
+    let mut c = vec![0x5Eu8; o.msg.len() + roomy_extra(o)];
+    let mut mac = [0x7Bu8; 16];
+    cb::crypto_box_detached_afternm(&mut c, &mut mac, &o.msg, &o.nonce, &k);
+    Ok([&mac[..], &c[..o.msg.len()]].concat())
+}
+fn d_seal_roomy(o: &Ops) -> Result<Vec<u8>, String> {
+    let n = o.msg.len() + SEAL;
+    let mut c = vec![0x5Eu8; n + roomy_extra(o)];
+    match cb::crypto_box_seal(&mut c, &o.msg, &o.rpk) { Ok(()) => { c.truncate(n); Ok(c) } Err(_) => d_seal(o) }
+}
 fn d_box_open_easy(o: &Ops, w: &[u8]) -> Opened {
     let before = canary(w.len().saturating_sub(MAC));
     let mut m = before.clone();
@@ -317,7 +356,8 @@ fn d_seal_open(o: &Ops, w: &[u8]) -> Opened {
 
 // the same classic opens with an output buffer of the GENUINE message length (a caller who knows what it expects): for
 // truncated or extended ciphertexts the buffer and the ciphertext then disagree.  Sizing the buffer is the caller's side of
-// the classic contract, so a refusal by panic counts as a refusal here; what may not happen is Ok, or a leak
+// the classic contract, so a refusal by panic counts as a refusal here; what may not happen is Ok, or a leak.  (Whether such a
+// call may panic at all is C04's question: its "receiver buffer of fixed size" entries decide it - since /repo 7ab6108 it does not.)
 fn d_sb_open_easy_g(o: &Ops, w: &[u8]) -> Opened {
     let before = canary(o.msg.len()); let mut m = before.clone();
     match catch(|| csb::crypto_secretbox_open_easy(&mut m, w, &o.nonce, &o.key)) { Ok(r) => fin(r, m, &before), Err(_) => Opened { ok: false, msg: vec![], leak: judge(&before, &m) } }
@@ -565,15 +605,15 @@ fn o_db_with_epk(o: &Ops, w: &[u8]) -> Opened {
 // ---------------------------------------------------------------------------- variant tables (names as in Aead.tla)
 pub fn enc_impls(cons: &str, v: &str) -> Vec<(&'static str, EncFn)> {
     let mut r: Vec<(&'static str, EncFn)> = match (cons, v) {
-        ("secretbox", "easy") => vec![("dryoc crypto_secretbox_easy", d_sb_easy), ("sodium crypto_secretbox_easy", so_sb_easy)],
-        ("secretbox", "detached") => vec![("dryoc crypto_secretbox_detached", d_sb_detached), ("sodium crypto_secretbox_detached", so_sb_detached)],
+        ("secretbox", "easy") => vec![("dryoc crypto_secretbox_easy", d_sb_easy), ("dryoc crypto_secretbox_easy (output buffer longer than needed)", d_sb_easy_roomy), ("sodium crypto_secretbox_easy", so_sb_easy)],
+        ("secretbox", "detached") => vec![("dryoc crypto_secretbox_detached", d_sb_detached), ("dryoc crypto_secretbox_detached (output buffer longer than needed)", d_sb_detached_roomy), ("sodium crypto_secretbox_detached", so_sb_detached)],
         ("secretbox", "easy_inplace") => vec![("dryoc crypto_secretbox_easy_inplace", d_sb_easy_inplace)],
         ("secretbox", "obj_to_bytes") => vec![("DryocSecretBox<Stack,Vec>::encrypt+to_bytes", stackvec::sb_to_bytes), ("DryocSecretBox<[u8],Vec>::encrypt+to_bytes", arrvec::sb_to_bytes),
                                              ("DryocSecretBox<Stack,Vec>::encrypt+to_vec", stackvec::sb_to_vec)],
         ("secretbox", "obj_into_vec") => vec![("VecBox::encrypt_to_vecbox+into_vec", o_sb_into_vec), ("VecBox::from_parts(roomy Vec)+into_vec", o_sb_into_vec_spare)],
         ("secretbox", "obj_parts") => vec![("DryocSecretBox<Stack,Vec>::encrypt+into_parts", stackvec::sb_parts), ("DryocSecretBox<[u8],Vec>::encrypt+into_parts", arrvec::sb_parts)],
-        ("box", "easy") => vec![("dryoc crypto_box_easy", d_box_easy), ("sodium crypto_box_easy", so_box_easy), ("sodium crypto_box_easy_afternm", so_box_easy_afternm)],
-        ("box", "detached") => vec![("dryoc crypto_box_detached", d_box_detached), ("dryoc crypto_box_detached_inplace", d_box_detached_inplace),
+        ("box", "easy") => vec![("dryoc crypto_box_easy", d_box_easy), ("dryoc crypto_box_easy (output buffer longer than needed)", d_box_easy_roomy), ("sodium crypto_box_easy", so_box_easy), ("sodium crypto_box_easy_afternm", so_box_easy_afternm)],
+        ("box", "detached") => vec![("dryoc crypto_box_detached", d_box_detached), ("dryoc crypto_box_detached (output buffer longer than needed)", d_box_detached_roomy), ("dryoc crypto_box_beforenm+detached_afternm (output buffer longer than needed)", d_box_detached_afternm_roomy), ("dryoc crypto_box_detached_inplace", d_box_detached_inplace),
                                     ("dryoc crypto_box_beforenm+detached_afternm", d_box_detached_afternm), ("dryoc crypto_box_beforenm+detached_afternm_inplace", d_box_detached_afternm_inplace),
                                     ("sodium crypto_box_detached", so_box_detached), ("sodium crypto_box_detached_afternm", so_box_detached_afternm)],
         ("box", "easy_inplace") => vec![("dryoc crypto_box_easy_inplace", d_box_easy_inplace)],
@@ -581,7 +621,7 @@ pub fn enc_impls(cons: &str, v: &str) -> Vec<(&'static str, EncFn)> {
                                        ("DryocBox<Stack,Vec>::precalc_encrypt+to_bytes", stackvec::db_precalc_to_bytes), ("DryocBox<[u8],Vec>::precalc_encrypt+to_bytes", arrvec::db_precalc_to_bytes)],
         ("box", "obj_into_vec") => vec![("VecBox::encrypt_to_vecbox+to_vec", o_db_to_vec), ("KeyPair::precalculate+VecBox::precalc_encrypt_to_vecbox+to_vec", o_db_precalc_to_vec)],
         ("box", "obj_parts") => vec![("DryocBox<Stack,Vec>::encrypt+into_parts", stackvec::db_parts), ("DryocBox<[u8],Vec>::encrypt+into_parts", arrvec::db_parts)],
-        ("seal", "seal") => vec![("dryoc crypto_box_seal", d_seal), ("sodium crypto_box_seal", so_seal)],
+        ("seal", "seal") => vec![("dryoc crypto_box_seal", d_seal), ("dryoc crypto_box_seal (output buffer longer than needed)", d_seal_roomy), ("sodium crypto_box_seal", so_seal)],
         ("seal", "obj_seal") => vec![("DryocBox<Stack,Vec>::seal+to_bytes", stackvec::db_seal_to_bytes), ("DryocBox<[u8],Vec>::seal+to_bytes", arrvec::db_seal_to_bytes),
                                      ("VecBox::seal_to_vecbox+to_vec", o_db_seal_to_vec)],
         _ => vec![],
